@@ -7,15 +7,20 @@ import (
 	"fmt"
 	"io/ioutil"
 	"math"
+	"math/big"
 	"net/http"
 	"net/http/httptest"
 	"os"
+	"os/exec"
 	"path/filepath"
 	"sort"
 	"strconv"
 	"strings"
+	"time"
 
 	"github.com/LindsayBradford/crem/cmd/cremengine/engine/api"
+	explorerData "github.com/LindsayBradford/crem/cmd/cremexplorer/config/data"
+	explorerInterpreter "github.com/LindsayBradford/crem/cmd/cremexplorer/config/interpreter"
 	"github.com/LindsayBradford/crem/internal/pkg/annealing/solution"
 	solenc "github.com/LindsayBradford/crem/internal/pkg/annealing/solution/encoding"
 	"github.com/LindsayBradford/crem/internal/pkg/annealing/solution/set"
@@ -128,15 +133,18 @@ func c13send(mux *api.Mux, method, path, body, ctype string) c13resp {
 	return r
 }
 
-func c13newMux() *api.Mux {
+func c13newMux() *api.Mux { return c13newMuxFor(c13scenario, "scenario_fixture") }
+
+// a fresh engine configured with the given scenario text (the fixture, or the very text the explorer was run with)
+func c13newMuxFor(scenarioText string, class string) *api.Mux {
 	threading.ResetMainThreadChannel()
 	ch := threading.GetMainThreadChannel()
 	mux := new(api.Mux).Initialise().WithMainThreadChannel(&ch)
 	mux.SetLogger(loggers.NewNullLogger())
-	r := c13send(mux, "POST", "scenario", c13scenario, "application/toml")
+	r := c13send(mux, "POST", "scenario", scenarioText, "application/toml")
 	if r.panicked || r.status != http.StatusOK {
-		c13oracle("the scenario fixture (testdata/ValidTestScenario.toml) is not accepted by POST /scenario: the engine cannot be configured",
-			J{"status": r.status, "response": r.body, "panic": r.what, "class": "scenario_fixture"})
+		c13oracle("the scenario is not accepted by POST /scenario: the engine cannot be configured with the scenario the explorer ran",
+			J{"status": r.status, "response": r.body, "panic": r.what, "class": class, "scenario": scenarioText})
 		return nil
 	}
 	return mux
@@ -153,10 +161,36 @@ func c13solution(ref *catchment.Model, bits uint64, id string) *solution.Solutio
 	return new(solution.SolutionBuilder).WithId(id).ForModel(clone).Build()
 }
 
+// the same for an action set of any size (one flag per management action)
+func c13solutionOfSet(ref *catchment.Model, set []bool, id string) *solution.Solution {
+	clone := ref.DeepClone()
+	clone.Initialise(model.AsIs)
+	for i, b := range set {
+		clone.SetManagementAction(i, b)
+	}
+	return new(solution.SolutionBuilder).WithId(id).ForModel(clone).Build()
+}
+
 type c13row struct {
 	label, enc, note string
 	vars             solution.VariableSetSummary
-	realBits         int64 // >= 0: the row was produced from the model with exactly these actions active
+	realBits         int64  // >= 0: the row was produced from the model with exactly these actions active (<= 63 actions)
+	real             []bool // non-nil: the same for any number of actions (one flag per action); takes precedence
+}
+
+// the action set whose REAL values the row carries (nil: none, the values are made up)
+func (r c13row) realSet(n int) []bool {
+	if r.real != nil {
+		return r.real
+	}
+	if r.realBits < 0 || n > 63 {
+		return nil
+	}
+	set := make([]bool, n)
+	for i := range set {
+		set[i] = uint64(r.realBits)&(1<<uint(i)) != 0
+	}
+	return set
 }
 
 func c13marshal(rows []c13row) string {
@@ -172,16 +206,96 @@ func c13marshal(rows []c13row) string {
 	return string(b)
 }
 
-// independent decoding of a single-word encoding valid for n <= 64 actions; ok=false if not such an encoding
-func c13decode(enc string, n int) (uint64, bool) {
-	if n > 64 || !c13decodable(enc, n) {
-		return 0, false
+// independent decoding of an encoding for n management actions (any n): ':'-separated words, least significant word
+// first, bit k of word w is action 64*w+k; the bits of the last word beyond n are dropped.  ok=false if the text
+// does not decode for n actions.
+func c13decodeSet(enc string, n int) ([]bool, bool) {
+	if !c13decodable(enc, n) {
+		return nil, false
 	}
-	v, _ := c13word(enc)
-	if n < 64 {
-		v &= (uint64(1) << uint(n)) - 1 // Decode zeroes the bits beyond the archive's size
+	set := make([]bool, n)
+	for w, word := range strings.Split(enc, ":") {
+		v, _ := c13word(word)
+		for k := 0; k < 64 && 64*w+k < n; k++ {
+			set[64*w+k] = v&(uint64(1)<<uint(k)) != 0
+		}
 	}
-	return v, true
+	return set, true
+}
+
+// independent ENcoding of an action set: one upper-case hexadecimal numeral without leading zeros per 64 actions
+func c13encodeSet(set []bool) string {
+	words := []string{}
+	for w := 0; 64*w < len(set); w++ {
+		var v uint64
+		for k := 0; k < 64 && 64*w+k < len(set); k++ {
+			if set[64*w+k] {
+				v |= uint64(1) << uint(k)
+			}
+		}
+		const digits = "0123456789ABCDEF"
+		text := ""
+		for ; v != 0; v >>= 4 {
+			text = string(digits[v&15]) + text
+		}
+		if text == "" {
+			text = "0"
+		}
+		words = append(words, text)
+	}
+	return strings.Join(words, ":")
+}
+
+func c13sameSet(a, b []bool) bool {
+	if len(a) != len(b) {
+		return false
+	}
+	for i := range a {
+		if a[i] != b[i] {
+			return false
+		}
+	}
+	return true
+}
+
+// the flags of a set as a decimal number (bit i = action i), the form they travel in to the Coq correspondence
+func c13setNumber(set []bool) string {
+	v := new(big.Int)
+	for i, b := range set {
+		if b {
+			v.SetBit(v, i, 1)
+		}
+	}
+	return v.String()
+}
+
+// the active actions a response lists ("pu:type"), as flags over the reference model's action list;
+// ok=false when the response names an action the scenario's model does not have, or names one twice
+func c13flagsOf(ref *catchment.Model, active []string) ([]bool, bool) {
+	index := map[string]int{}
+	for i, a := range ref.ManagementActions() {
+		index[fmt.Sprintf("%v:%v", a.PlanningUnit(), a.Type())] = i
+	}
+	set := make([]bool, len(index))
+	for _, k := range active {
+		i, known := index[k]
+		if !known || set[i] {
+			return nil, false
+		}
+		set[i] = true
+	}
+	return set, true
+}
+
+func c13expectedActiveOfSet(ref *catchment.Model, set []bool) []string {
+	res := []string{}
+	for i, a := range ref.ManagementActions() {
+		if i < len(set) && set[i] {
+			res = append(res, fmt.Sprintf("%v:%v", a.PlanningUnit(), a.Type()))
+		}
+	}
+	sort.Strings(res)
+	return res
 }
 
 // one entry of an encoding as BooleanArchive.Decode reads it: non-empty, hexadecimal digits only, value below 2^64
@@ -249,17 +363,6 @@ func c13active(m map[string]interface{}) []string {
 	return res
 }
 
-func c13expectedActive(ref *catchment.Model, bits uint64) []string {
-	res := []string{}
-	for i, a := range ref.ManagementActions() {
-		if bits&(1<<uint(i)) != 0 {
-			res = append(res, fmt.Sprintf("%v:%v", a.PlanningUnit(), a.Type()))
-		}
-	}
-	sort.Strings(res)
-	return res
-}
-
 func c13values(m map[string]interface{}) map[string]float64 {
 	res := map[string]float64{}
 	vs, _ := m["DecisionVariables"].([]interface{})
@@ -309,7 +412,7 @@ func c13e2e(pre [][]c13row, rows []c13row, class string, inQuantifier bool) {
 
 // rows of a summary FILE (as the explorer's saver wrote it), for the implementation-side oracle: the values of a row
 // are the file's own figures, the expected actions those of the file's own encoding
-func c13rowsOfText(text string) ([]c13row, bool) {
+func c13rowsOfText(text string, nActions int) ([]c13row, bool) {
 	records, err := c20reader(text)
 	if err != nil || len(records) < 1 || len(records[0]) < 3 {
 		return nil, false
@@ -328,8 +431,8 @@ func c13rowsOfText(text string) ([]c13row, bool) {
 			}
 			row.vars = append(row.vars, solution.VariableSummary{Name: n, Value: v})
 		}
-		if bits, ok := c13decode(row.enc, 64); ok {
-			row.realBits = int64(bits)
+		if set, ok := c13decodeSet(row.enc, nActions); ok {
+			row.real = set
 		}
 		rows = append(rows, row)
 	}
@@ -338,14 +441,23 @@ func c13rowsOfText(text string) ([]c13row, bool) {
 
 // one summary TEXT (rows = what it is supposed to contain, row by row) through a fresh engine
 func c13e2eText(pre [][]c13row, text string, rows []c13row, class string, inQuantifier bool) {
+	c13e2eTextOn(c13scenario, pre, text, rows, class, inQuantifier)
+}
+
+// ... through a fresh engine configured with the given scenario text
+func c13e2eTextOn(scenarioText string, pre [][]c13row, text string, rows []c13row, class string, inQuantifier bool) {
 	c13stats["e2e_"+class]++
-	mux := c13newMux()
+	mux := c13newMuxFor(scenarioText, class)
+	if mux == nil {
+		return
+	}
 	defer protect(func() { mux.Shutdown() })
 	ref := mux.VerifC13Model()
 	nActions := len(ref.ManagementActions())
+	c13stats[fmt.Sprintf("e2e_with_%03d_actions", nActions)]++
 
 	records, readErr := c20reader(text)
-	cj := J{"kind": "e2e", "class": class, "text": c20hex(text), "nrows": len(rows), "nw": (nActions + 63) / 64}
+	cj := J{"kind": "e2e", "class": class, "text": c20hex(text), "nrows": len(rows), "nw": (nActions + 63) / 64, "nact": nActions}
 	if readErr != nil || len(records) != len(rows)+1 {
 		// the marshalled text is not read back as one record per row: outside the model (fields not csv-safe)
 		cj["csv"] = nil
@@ -477,6 +589,16 @@ func c13e2eText(pre [][]c13row, text string, rows []c13row, class string, inQuan
 				gj["obs"] = "status" + strconv.Itoa(g.status)
 			}
 			c13stats["get_"+fmt.Sprint(gj["obs"])]++
+			// the active actions of the served solution, as flags over the scenario's action list
+			gj["act"] = nil
+			if jm != nil {
+				if set, expressible := c13flagsOf(ref, c13active(jm)); expressible {
+					gj["act"] = c13setNumber(set)
+				} else if inQuantifier {
+					c13oracle("solution fetched by label lists an action the scenario's model does not have (or lists one twice)",
+						J{"label": label, "observed_active": c13active(jm), "class": class})
+				}
+			}
 			gets = append(gets, gj)
 
 			// ---- the property, on the real response ----
@@ -495,12 +617,12 @@ func c13e2eText(pre [][]c13row, text string, rows []c13row, class string, inQuan
 				}
 				continue
 			}
-			wantBits, valid := c13decode(row.enc, nActions)
+			wantSet, valid := c13decodeSet(row.enc, nActions)
 			e, _ := c13attr(jm, "Encoding")
 			if fmt.Sprint(e) != row.enc {
 				extra := J{"label": label, "encoding": row.enc, "encoding_class": c13encClass(row.enc), "observed_encoding": fmt.Sprint(e)}
 				if valid {
-					extra["expected_active"] = c13expectedActive(ref, wantBits)
+					extra["expected_active"] = c13expectedActiveOfSet(ref, wantSet)
 					extra["observed_active"] = gotActive
 				}
 				c13oracle("solution fetched by label was not decoded from its row's own encoding", extra)
@@ -513,19 +635,19 @@ func c13e2eText(pre [][]c13row, text string, rows []c13row, class string, inQuan
 			if !valid {
 				continue // not an encoding the scenario's compressor can have written: nothing to decode
 			}
-			wantActive := c13expectedActive(ref, wantBits)
+			wantActive := c13expectedActiveOfSet(ref, wantSet)
 			if strings.Join(gotActive, ",") != strings.Join(wantActive, ",") {
 				c13oracle("solution fetched by label does not have the actions encoded in its row",
-					J{"label": label, "encoding": row.enc, "encoding_class": c13encClass(row.enc),
-						"expected_active": wantActive, "observed_active": gotActive})
+					J{"label": label, "encoding": row.enc, "encoding_class": c13encClass(row.enc), "actions": nActions,
+						"expected_active": wantActive, "observed_active": gotActive, "class": class})
 				continue
 			}
-			if row.realBits >= 0 && uint64(row.realBits) == wantBits {
+			if real := row.realSet(nActions); real != nil && c13sameSet(real, wantSet) {
 				got := c13values(jm)
 				for _, v := range row.vars {
 					if gv, ok := got[v.Name]; !ok || math.Abs(gv-v.Value) > 0.00501 {
 						c13oracle("decision-variable value of the fetched solution differs from its row",
-							J{"label": label, "encoding": row.enc, "variable": v.Name, "row": v.Value, "observed": gv})
+							J{"label": label, "encoding": row.enc, "variable": v.Name, "row": v.Value, "observed": gv, "actions": nActions, "class": class})
 					}
 				}
 			}
@@ -539,9 +661,20 @@ func c13e2eText(pre [][]c13row, text string, rows []c13row, class string, inQuan
 		if len(rows) > 0 {
 			order = append(order, 0)
 		}
+		// the flags of the engine's model before the first PATCH of this phase (the history may have set it)
+		cj["mstart"] = nil
+		if len(order) > 0 {
+			g := c13send(mux, "GET", "model", "", "")
+			var jm map[string]interface{}
+			if !g.panicked && g.status == http.StatusOK && json.Unmarshal([]byte(g.body), &jm) == nil {
+				if set, expressible := c13flagsOf(ref, c13active(jm)); expressible {
+					cj["mstart"] = c13setNumber(set)
+				}
+			}
+		}
 		for _, li := range order {
 			row := rows[li]
-			pj := J{"enc": c20hex(row.enc), "row": li}
+			pj := J{"enc": c20hex(row.enc), "row": li, "act": nil, "menc": nil}
 			// Encoding(Decode(e)) by the real archive code, on a clone of the scenario's model
 			cm := new(archiveCompressor).recode(ref, row.enc)
 			if cm == nil {
@@ -566,14 +699,47 @@ func c13e2eText(pre [][]c13row, text string, rows []c13row, class string, inQuan
 				} else {
 					pj["obs"] = fmt.Sprint(v)
 				}
+				// what the engine's model now is: its active actions and its own Encoding attribute
+				modelSet, expressible := c13flagsOf(ref, c13active(jm))
+				if expressible {
+					pj["act"] = c13setNumber(modelSet)
+				}
+				modelEnc, hasEnc := c13attr(jm, "Encoding")
+				if hasEnc {
+					pj["menc"] = c20hex(fmt.Sprint(modelEnc))
+				}
+				if wantSet, valid := c13decodeSet(row.enc, nActions); valid && inQuantifier {
+					if !expressible || !c13sameSet(modelSet, wantSet) {
+						c13oracle("model set from an encoding (PATCH /model) does not have the actions the encoding names",
+							J{"encoding": row.enc, "encoding_class": c13encClass(row.enc), "label": row.label, "actions": nActions, "class": class,
+								"expected_active": c13expectedActiveOfSet(ref, wantSet), "observed_active": c13active(jm)})
+					} else if !hasEnc || fmt.Sprint(modelEnc) != c13encodeSet(wantSet) {
+						c13oracle("model set from an encoding (PATCH /model) does not report the canonical encoding of its action set",
+							J{"encoding": row.enc, "encoding_class": c13encClass(row.enc), "label": row.label, "actions": nActions, "class": class,
+								"expected_model_encoding": c13encodeSet(wantSet), "observed_model_encoding": fmt.Sprint(modelEnc)})
+					}
+				}
 			default:
 				pj["obs"] = "status" + strconv.Itoa(p.status)
 			}
 			c13stats["patch_"+fmt.Sprint(pj["obs"])]++
 			patches = append(patches, pj)
-			if inQuantifier && li > 0 && cm != nil && *cm == row.enc && pj["obs"] != "true" {
+			// a row other than As-Is whose text is the canonical encoding of the action set it names (independently
+			// decoded and re-encoded here -- not by the archive code under test; every text the compressor writes is one)
+			canonical := false
+			if wantSet, valid := c13decodeSet(row.enc, nActions); valid {
+				canonical = c13encodeSet(wantSet) == row.enc
+			}
+			if canonical {
+				c13stats["patch_canonical_row"]++
+			}
+			if inQuantifier && li > 0 && canonical && pj["obs"] != "true" {
 				c13oracle("model set from the encoding of a non-as-is row is not marked as Pareto front member",
-					J{"encoding": row.enc, "encoding_class": c13encClass(row.enc), "observed": pj["obs"], "label": row.label})
+					J{"encoding": row.enc, "encoding_class": c13encClass(row.enc), "observed": pj["obs"], "label": row.label, "actions": nActions, "class": class})
+			}
+			if inQuantifier && canonical && (cm == nil || *cm != row.enc) {
+				c13oracle("Encoding(Decode(e)) of the archive code is not e for a canonical encoding e of the scenario's action count",
+					J{"encoding": row.enc, "encoding_class": c13encClass(row.enc), "recoded": cm, "actions": nActions, "class": class})
 			}
 		}
 	}
@@ -607,6 +773,13 @@ func c13decompress(cm *marchive.CompressedModelState, m model.Model) {
 func c13vars(ref *catchment.Model, bits uint64) (solution.VariableSetSummary, string) {
 	s := c13solution(ref, bits, "x")
 	sum := s.Summarise()
+	if n := len(ref.ManagementActions()); n <= 63 {
+		set := make([]bool, n)
+		for i := range set {
+			set[i] = bits&(1<<uint(i)) != 0
+		}
+		c13written(set, string(sum.Actions), "scenario_fixture")
+	}
 	return sum.Variables, string(sum.Actions)
 }
 
@@ -712,7 +885,7 @@ func c13saverScenario(rng *prng, ref *catchment.Model, fam string, name string, 
 			panic(rerr)
 		}
 		text := string(b)
-		rows, ok := c13rowsOfText(text)
+		rows, ok := c13rowsOfText(text, nActions)
 		if !ok {
 			c13oracle("summary file written by the saver is not a well-formed summary table", J{"class": class, "text": text})
 			continue
@@ -720,6 +893,266 @@ func c13saverScenario(rng *prng, ref *catchment.Model, fam string, name string, 
 		c13stats["saver_files"]++
 		c13stats["saver_rows"] += len(rows)
 		c13e2eText(nil, text, rows, class, true)
+	}
+}
+
+// ---------- generated catchments whose action count sits on / around the 64-bit words of the encoding ----------
+//
+// The REAL explorer (cmd/cremexplorer's loader, interpreter and Scenario.Run(), in a child process because a panic in
+// a run goroutine cannot be recovered) is run over a generated catchment with exactly n management actions, once per
+// annealer family; the summary file it writes is posted to a fresh engine configured with the SAME scenario text,
+// every label fetched, the model set from every row's encoding.  Plus, through the real marshaller, the action sets
+// that fill / straddle the words (all actions, only the last one, only action 63 / 64 / ...), with their real values.
+
+// child: one scenario text through the explorer.  Exit status: 0 completed; 10 loader error; 11 interpreter error;
+// 12 Run() returned an error; 2 = Go's own status for a panic nobody recovered.
+func runC13child(args []string) {
+	text, err := os.ReadFile(args[0])
+	if err != nil {
+		fmt.Fprintln(os.Stderr, "C13child: cannot read", args[0], err)
+		os.Exit(30)
+	}
+	config, loadErr := explorerData.RetrieveConfigFromString(string(text))
+	if loadErr != nil {
+		fmt.Fprintln(os.Stderr, "C13LOADERR", loadErr)
+		os.Exit(10)
+	}
+	interpreter := explorerInterpreter.NewInterpreter().Interpret(config)
+	if interpreter.Errors() != nil {
+		fmt.Fprintln(os.Stderr, "C13INTERPRETERR", interpreter.Errors())
+		os.Exit(11)
+	}
+	if runErr := interpreter.Scenario().Run(); runErr != nil {
+		fmt.Fprintln(os.Stderr, "C13RUNERR", runErr)
+		os.Exit(12)
+	}
+	os.Exit(0)
+}
+
+func c13runExplorer(tomlPath string) (rc int, stderr string) {
+	exe, _ := os.Executable()
+	cmd := exec.Command(exe, "C13child", tomlPath)
+	var se strings.Builder
+	cmd.Stderr = &se
+	if err := cmd.Start(); err != nil {
+		panic(err)
+	}
+	done := make(chan error, 1)
+	go func() { done <- cmd.Wait() }()
+	select {
+	case werr := <-done:
+		if werr != nil {
+			rc = -1
+			if ee, ok := werr.(*exec.ExitError); ok {
+				rc = ee.ExitCode()
+			}
+		}
+	case <-time.After(120 * time.Second):
+		cmd.Process.Kill()
+		<-done
+		return 7, "no end within 120 s"
+	}
+	stderr = se.String()
+	if len(stderr) > 800 {
+		stderr = stderr[len(stderr)-800:]
+	}
+	return rc, stderr
+}
+
+// the explorer side of an Actions cell: the text the real solution builder / compressor writes for a model with the
+// given action set.  Exported for the Coq model (ActionCodec.encoding_of) and compared with the independent encoder.
+func c13written(set []bool, text string, class string) {
+	key := c13setNumber(set) + "/" + strconv.Itoa(len(set))
+	if c13writtenSeen[key] {
+		return
+	}
+	c13writtenSeen[key] = true
+	c13stats["written_encodings"]++
+	emit(J{"kind": "wr", "n": len(set), "set": c13setNumber(set), "text": c20hex(text), "class": class})
+	if want := c13encodeSet(set); text != want {
+		c13oracle("the Actions text the explorer writes for an action set is not the canonical encoding of that set",
+			J{"encoding": text, "expected_encoding": want, "actions": len(set), "active_flags": c13setNumber(set), "class": class})
+	}
+}
+
+var c13writtenSeen = map[string]bool{}
+
+type c13family struct{ name, annealer string }
+
+var c13families = []c13family{
+	{"Kirkpatrick", `[Annealer]
+Type = "Kirkpatrick"
+[Annealer.Parameters]
+DecisionVariable = "SedimentProduction"
+OptimisationDirection = "Minimising"
+StartingTemperature = 10.0
+CoolingFactor = 0.99
+MaximumIterations = %d
+`},
+	{"Suppapitnarm", `[Annealer]
+Type = "Suppapitnarm"
+[Annealer.Parameters]
+ExplorableDecisionVariables = "SedimentProduction,ImplementationCost"
+StartingTemperature = 10.0
+CoolingFactor = 0.99
+MaximumIterations = %d
+`},
+}
+
+// catchment.Model.deriveDataSourcePath joins the process's working directory and the configured DataSourcePath
+// unconditionally (an absolute path is NOT kept), so the data set is named relative to the working directory -- the
+// same for the explorer child and for the engine, which both run in this process's working directory.
+func c13scenarioText(name string, fam c13family, iterations int, outDir string, dataPath string) string {
+	if wd, err := os.Getwd(); err == nil {
+		if rel, relErr := filepath.Rel(wd, dataPath); relErr == nil {
+			dataPath = filepath.ToSlash(rel)
+		}
+	}
+	return "[Scenario]\nName = " + strconv.Quote(name) + "\nOutputPath = " + strconv.Quote(outDir) + "\nOutputType = \"CSV\"\n" +
+		"[Scenario.Reporting]\nReportEveryNumberOfIterations = 1000\n\n" + fmt.Sprintf(fam.annealer, iterations) +
+		"\n[Model]\nType = \"CatchmentModel\"\n[Model.Parameters]\nDataSourcePath = " + strconv.Quote(dataPath) + "\n"
+}
+
+func c13datasetFiles(metaPath string) J {
+	res := J{}
+	files, _ := filepath.Glob(filepath.Join(filepath.Dir(metaPath), "*.csv"))
+	for _, f := range files {
+		b, _ := os.ReadFile(f)
+		res[filepath.Base(f)] = string(b)
+	}
+	return res
+}
+
+func c13sizedCatchment(rng *prng, n int, iterations int) {
+	meta, cleanup, desc := catchSizedDataset(rng, n)
+	defer cleanup()
+	c13stats["sized_catchments"]++
+	dir := filepath.Dir(meta)
+	sizeClass := fmt.Sprintf("%03d_actions", n)
+	dataset := c13datasetFiles(meta)
+
+	// (i) the real explorer, both annealer families
+	for _, fam := range c13families {
+		name := fmt.Sprintf("Sized %s %d", fam.name, n)
+		outDir := filepath.Join(dir, "solutions-"+fam.name)
+		text := c13scenarioText(name, fam, iterations, outDir, meta)
+		tomlPath := filepath.Join(dir, fam.name+".toml")
+		if err := os.WriteFile(tomlPath, []byte(text), 0o644); err != nil {
+			panic(err)
+		}
+		class := "explorer_" + strings.ToLower(fam.name) + "_" + sizeClass
+		rc, stderr := c13runExplorer(tomlPath)
+		if rc != 0 {
+			c13oracle("the explorer did not complete a run over a generated catchment (no summary to load)",
+				J{"class": class, "exit_status": rc, "stderr": stderr, "scenario": text, "dataset": dataset, "composition": desc})
+			continue
+		}
+		files, _ := filepath.Glob(filepath.Join(outDir, "*ummary.csv"))
+		if len(files) != 1 {
+			c13oracle("the explorer did not write exactly one summary file for its run", J{"class": class, "files": files, "scenario": text})
+			continue
+		}
+		b, rerr := os.ReadFile(files[0])
+		if rerr != nil {
+			panic(rerr)
+		}
+		summary := string(b)
+		rows, ok := c13rowsOfText(summary, n)
+		if !ok {
+			c13oracle("summary file written by the explorer is not a well-formed summary table", J{"class": class, "text": summary})
+			continue
+		}
+		c13stats["explorer_summaries"]++
+		c13stats["explorer_summary_rows"] += len(rows)
+		before := len(c13oracleSeen)
+		c13e2eTextOn(text, nil, summary, rows, class, true)
+		if len(c13oracleSeen) != before {
+			// the replay of a failing generated scenario needs its data set
+			emit(J{"kind": "oracle", "what": "(input of the failing generated scenario above)", "class": class, "actions": n,
+				"scenario": text, "dataset": dataset, "summary_text": summary, "composition": desc})
+		}
+	}
+
+	// (ii) the real marshaller on the action sets that fill / straddle the words, with their real values
+	fam := c13families[0]
+	text := c13scenarioText(fmt.Sprintf("Sized sets %d", n), fam, iterations, filepath.Join(dir, "solutions-sets"), meta)
+	probe := c13newMuxFor(text, "marshaller_"+sizeClass)
+	if probe == nil {
+		return
+	}
+	ref := probe.VerifC13Model()
+	protect(func() { probe.Shutdown() })
+	if len(ref.ManagementActions()) != n {
+		panic("generated catchment does not offer the requested number of actions to the engine")
+	}
+	rowOf := func(label, note string, set []bool) c13row {
+		sum := c13solutionOfSet(ref, set, "x").Summarise()
+		c13written(set, string(sum.Actions), "marshaller_boundary_sets_"+sizeClass)
+		return c13row{label: label, enc: string(sum.Actions), note: note, vars: sum.Variables, realBits: -1, real: set}
+	}
+	sets := [][]bool{}
+	single := func(k int) {
+		if k >= 0 && k < n {
+			set := make([]bool, n)
+			set[k] = true
+			sets = append(sets, set)
+		}
+	}
+	ones := make([]bool, n)
+	for i := range ones {
+		ones[i] = true
+	}
+	sets = append(sets, ones)
+	for _, k := range []int{n - 1, 0, 62, 63, 64, 65, 127, 128, 191, 192} {
+		if k != 0 || n > 1 {
+			single(k)
+		}
+	}
+	for w := 0; 64*w < n; w++ { // everything but one word; only the last word
+		if n > 64 {
+			set := make([]bool, n)
+			for i := range set {
+				set[i] = i/64 != w
+			}
+			sets = append(sets, set)
+		}
+	}
+	for t := 0; t < 3; t++ {
+		set := make([]bool, n)
+		any := false
+		for i := range set {
+			set[i] = rng.chance(0.5)
+			any = any || set[i]
+		}
+		if any {
+			sets = append(sets, set)
+		}
+	}
+	asRow := rowOf("As-Is", "As-is state; zero active management actions", make([]bool, n))
+	rows := []c13row{asRow}
+	seen := map[string]bool{asRow.enc: true}
+	for _, set := range sets {
+		r := rowOf("x", "x", set)
+		if seen[r.enc] {
+			continue
+		}
+		seen[r.enc] = true
+		rows = append(rows, r)
+	}
+	for k := range rows[1:] {
+		rows[k+1].label = fmt.Sprintf("%d-of-%d", k+1, len(rows)-1)
+		rows[k+1].note = fmt.Sprintf("Pareto front member %d of %d", k+1, len(rows)-1)
+	}
+	before := len(c13oracleSeen)
+	// an earlier summary under the same labels first (all actions / the last action only), then the boundary sets
+	pre := [][]c13row{{asRow, rowOf("1-of-2", "Pareto front member 1 of 2", sets[len(sets)-1]), rowOf("2-of-2", "Pareto front member 2 of 2", ones)}}
+	if pre[0][1].enc == pre[0][2].enc {
+		pre = nil
+	}
+	c13e2eTextOn(text, pre, c13marshal(rows), rows, "marshaller_boundary_sets_"+sizeClass, true)
+	if len(c13oracleSeen) != before {
+		emit(J{"kind": "oracle", "what": "(input of the failing generated scenario above)", "class": "marshaller_boundary_sets_" + sizeClass, "actions": n,
+			"scenario": text, "dataset": dataset, "composition": desc})
 	}
 }
 
@@ -947,6 +1380,23 @@ func runC13(args []string) {
 		}
 	}
 
+	// ---- 2f. generated catchments with the action count on / around the 64-bit word boundaries of the encoding:
+	//          real explorer (both families) -> summary file -> engine configured with the same scenario ----
+	{
+		sizes := []int{63, 64, 65, 128, 127, 129, 192, 1, 2}
+		iterations := 300
+		if tier == "thorough" {
+			sizes = []int{63, 64, 65, 128, 1, 2, 3, 13, 62, 66, 127, 129, 191, 192, 193, 256, 320, 64, 128}
+			for i := 0; i < 6; i++ {
+				sizes = append(sizes, 1+rng.intn(200))
+			}
+			iterations = 1500
+		}
+		for _, n := range sizes {
+			c13sizedCatchment(rng, n, iterations)
+		}
+	}
+
 	// ---- 3. regression cases: the former refutation witnesses of D9 (b0400cb) and of the stale pool (43fcffa)
 	//         must now round-trip; they are ordinary in-quantifier cases of the correspondence and of the oracle ----
 	for _, bits := range []uint64{0x1E3, 0xF, 0x1E0, 0x12, 0x1E03} {
@@ -972,4 +1422,7 @@ func runC13(args []string) {
 	emit(J{"kind": "stat", "stats": c13stats})
 }
 
-func init() { register("C13", runC13) }
+func init() {
+	register("C13", runC13)
+	register("C13child", runC13child)
+}
